@@ -3372,8 +3372,25 @@ XPath::stepPattern(
                                     argLen,
                                     stepType);
 
+                // The root node is never a child, so it cannot match
+                // a step on the child axis which is followed by '//',
+                // not even node().  A leading '//' is represented by
+                // eMATCH_ANY_ANCESTOR_WITH_PREDICATE and node(), which
+                // does match the root node...
+                const bool  fIsChildStep =
+                    stepType == XPathExpression::eMATCH_ANY_ANCESTOR;
+
                 for(;;)
                 {
+                    if (fIsChildStep == true &&
+                        (nodeType == XalanNode::DOCUMENT_NODE ||
+                         nodeType == XalanNode::DOCUMENT_FRAGMENT_NODE))
+                    {
+                        score = eMatchScoreNone;
+
+                        break;
+                    }
+
                     score = theTester(*context, nodeType);
 
                     if (eMatchScoreNone != score)
